@@ -10,7 +10,7 @@ let dispatch = function
   | "mus" -> let w = next_mat next_q in let ci = next_list next_z in let qt = next_nat () in p_q (run_mus w ci qt)
   | "agree" -> let n = next_nat () in let cols = next_mat next_z in p_mat p_q (run_agreement n cols)
   | "pd" -> let cx = next_list next_z in let cy = next_list next_z in
-      let ((a, b), c) = run_pd cx cy in ps "["; p_ql a; ps ","; p_ql b; ps ","; p_ql c; ps "]"
+      let (t, ((a, b), c)) = run_pd cx cy in ps "["; p_bool t; ps ","; p_ql a; ps ","; p_ql b; ps ","; p_ql c; ps "]"
   | "ci2ls" -> let ci = next_list next_z in p_list (p_list p_nat) (run_ci2ls ci)
   | "ls2ci" -> let ls = next_mat next_nat in p_list p_nat (run_ls2ci ls)
   | f -> failwith ("unknown function " ^ f)
